@@ -389,7 +389,8 @@ pub fn run(ctx: &Ctx) -> Outcome {
     if !ctx.miri {
         run_cases(ctx, &mut out, SubSpec { name: "large_surfaces", cases: ctx.n(8, 200), exhaustive: false, max_secs: 120. }, |i, want, st| {
             let mut rng = ctx.rng("large_surfaces", i);
-            let (w, h) = *rng.pick(&[(200, 100), (130, 130), (257, 70), (64, 300), (1, 20000), (20000, 1)]);
+            // (two of every eight hold more than 2^20 pixels, with a height that no round number of rows divides)
+            let (w, h) = match i % 8 { 0 => (1100, 1000), 1 => (1031, 1019), _ => *rng.pick(&[(200, 100), (130, 130), (257, 70), (64, 300), (1, 20000), (20000, 1)]) };
             let n = (w * h) as usize;
             // painted and empty regions alternate at different scales (rows, blocks, single pixels)
             let style = rng.below(3);
@@ -411,6 +412,35 @@ pub fn run(ctx: &Ctx) -> Outcome {
             }
             if want || !co.violations.is_empty() {
                 co.desc = Some(J::s(&format!("{}x{} surface, fill style {}", w, h, style)));
+            }
+            co
+        });
+    }
+    if !ctx.miri {
+        // a surface of 2^29 pixels (2 GiB of zero pages that are never touched): its byte view is 2^31 bytes long, one
+        // more than an i32 holds
+        run_cases(ctx, &mut out, SubSpec { name: "byte_view_of_a_surface_of_2_to_the_29_pixels", cases: 1, exhaustive: true, max_secs: 120. }, |_i, want, st| {
+            let mut co = CaseOut::default();
+            co.hash = 1;
+            co.nontrivial = true;
+            let res = guarded(|| {
+                let mut dt = DrawTarget::new(32768, 16384);
+                let words = dt.get_data().len();
+                let bytes = dt.get_data_u8().len();
+                let bytes_mut = dt.get_data_u8_mut().len();
+                (words, bytes, bytes_mut)
+            });
+            st.add("surfaces_of_2_to_the_29_pixels", 1);
+            match res {
+                Ok((words, bytes, bytes_mut)) => {
+                    if words != 1 << 29 || bytes != 1usize << 31 || bytes_mut != 1usize << 31 {
+                        co.viol("C19", format!("a 32768x16384 surface has {} words but its byte views have {} and {} bytes", words, bytes, bytes_mut));
+                    }
+                }
+                Err(p) => co.viol("C19", format!("taking the byte view of a 32768x16384 surface panicked: {}", p)),
+            }
+            if want || !co.violations.is_empty() {
+                co.desc = Some(J::s("DrawTarget::new(32768, 16384); get_data_u8().len(); get_data_u8_mut().len()"));
             }
             co
         });
